@@ -34,6 +34,11 @@ def regenerate_globals():
     return json.loads(r.stdout.strip().splitlines()[-1])
 
 
+def c06_nested():
+    import c06
+    return c06.NESTED + ["&a = d1000; a", "&a = 2d1000; func g(){ a }; g()"]
+
+
 def make_jobs(rnd, n):
     jobs = []
     for i in range(n):
@@ -42,12 +47,12 @@ def make_jobs(rnd, n):
         if k < 5:
             src = g.program().encode()
         elif k < 7:
-            src = rnd.choice(["2d6+1", "3d20k2", "b2+p", "5a8", "3c8", "f", "[1,2,3].rand()", "[1,2,3,4].shuffle()", "2d6 + 3d4 * 2", "d", "x=2d6; x+1"]).encode()
+            src = rnd.choice(c06_nested() + ["2d6+1", "3d20k2", "b2+p", "5a8", "3c8", "f", "[1,2,3].rand()", "[1,2,3,4].shuffle()", "2d6 + 3d4 * 2", "d", "x=2d6; x+1"]).encode()
         else:
             src = rnd.choice(["(1+2", "1 +", "[1,2", "'abc", "if", "break", "x = = 1", ".\n", "`{% %}`", "1 ? 2", "func (", ")", "", " ", "\n", "\t\n ",
                               "/", "%", "1 +\n\n", "\xff"]).encode("latin-1")
         jobs.append({"b64": base64.b64encode(src).decode(), "flags": [rnd.random() < 0.7 for _ in range(4)] + [rnd.random() < 0.2 for _ in range(3)],
-                     "lang": rnd.randrange(3), "hi": str(rnd.getrandbits(64)), "lo": str(rnd.getrandbits(64)), "seeded": rnd.random() < 0.85})
+                     "lang": rnd.randrange(3), "hi": str(rnd.getrandbits(64)), "lo": str(rnd.getrandbits(64)), "seeded": rnd.random() < 0.85, "viaseed": rnd.random() < 0.5})
     return jobs
 
 
